@@ -28,7 +28,7 @@ func (w c08Will) String() string {
 }
 
 var c08Endings = []string{"DISCONNECT(0x00)", "DISCONNECT(0x04)", "socket-close", "malformed-packet", "keepalive-timeout", "takeover(clean0)", "takeover(clean1)", "Client.Close()", "TerminateSession", "invalid-DISCONNECT(0x00,session-expiry-30-after-CONNECT-with-expiry-0)"}
-var c08Follow = []string{"advance(4s)", "advance(6s)", "advance(21s)", "reconnect(clean0)", "reconnect(clean1)"}
+var c08Follow = []string{"advance(4s)", "advance(6s)", "advance(21s)", "reconnect(clean0)", "reconnect(clean1)", "reconnect(clean0,other-protocol-version)"}
 
 func c08Variants(quick bool) []c08Will {
 	var out []c08Will
@@ -70,10 +70,20 @@ func c08Run(c *explore.Ctx, wv c08Will, ending int, follow []int) {
 		watch.Connect(harness.ConnectOpts{ClientID: "watch", Clean: true, Version: refmqtt.V5})
 		watch.Subscribe(0, refmqtt.Sub{Filter: "w", QoS: 1, RAP: true})
 		now := int64(0) // ns since scenario start
+		otherVersion := false
 		connect := func(name string, clean bool, withWill bool, ka uint16) *harness.Client {
 			x := w.Dial(name)
 			o := harness.ConnectOpts{ClientID: "x", Clean: clean, Version: wv.version, KeepAlive: ka}
-			if wv.version == refmqtt.V5 && wv.expiry >= 0 {
+			if otherVersion {
+				// the session is re-attached by a connection of the other protocol version
+				otherVersion = false
+				if wv.version == refmqtt.V5 {
+					o.Version = refmqtt.V311
+				} else {
+					o.Version = refmqtt.V5
+					o.Props = &refmqtt.Props{SessionExpiry: harness.U32(100)}
+				}
+			} else if wv.version == refmqtt.V5 && wv.expiry >= 0 {
 				o.Props = &refmqtt.Props{SessionExpiry: harness.U32(uint32(wv.expiry))}
 			}
 			if withWill {
@@ -298,8 +308,9 @@ func c08Run(c *explore.Ctx, wv c08Will, ending int, follow []int) {
 				if sessionAlive && sessionEnds >= 0 && now > sessionEnds {
 					sessionAlive = false
 				}
-			case 3, 4:
+			case 3, 4, 5:
 				clean := f == 4
+				otherVersion = f == 5
 				nrec++
 				if due >= 0 && armed && absI64(now-due) <= int64(time.Second) {
 					return // boundary second: tolerated either way, stop here
